@@ -1,26 +1,41 @@
 #!/bin/bash
-# usage: seed_matrix.sh <seed-root> [ids...]
+# usage: [MVCHECK=<binary>] [JOBS=n] seed_matrix.sh <seed-root> [ids...]
 # Applies every seeded patch to a scratch worktree of /repo's HEAD (outside /repo and /verif), runs all
 # rule sets on it and prints "<id>: <rules that fail>" — which checks catch which change.
+# MVCHECK=<binary>: use that analyser (e.g. one built from an earlier commit, to measure what the
+# checks caught when a batch of seeds arrived) instead of building the current sources.
+# JOBS: number of seeds analysed in parallel (each in its own worktree; default 4).
 set -u
 root="$1"; shift
 ids="$*"; [ -z "$ids" ] && ids=$(ls -d $root/C[0-9]*[a-z] | xargs -n1 basename)
 cd /verif || exit 2
 export GOFLAGS=-mod=mod GOPROXY=off GOSUMDB=off GOTOOLCHAIN=local GOWORK=off
-# MVCHECK=<binary>: use that analyser (e.g. one built from an earlier commit, to measure what the
-# checks caught when a batch of seeds arrived) instead of building the current sources
-if [ -n "${MVCHECK:-}" ]; then cp "$MVCHECK" /var/tmp/mvcheck.matrix; else
+bin=/var/tmp/mvcheck.matrix.$$
+if [ -n "${MVCHECK:-}" ]; then cp "$MVCHECK" $bin; else
 go build -o bin/mvcheck ./cmd/mvcheck || exit 2
-cp bin/mvcheck /var/tmp/mvcheck.matrix; fi
-wt=/var/tmp/mvmatrix_wt
-git -C /repo worktree remove --force $wt 2>/dev/null
-git -C /repo worktree add -q --detach $wt HEAD || exit 2
-for id in $ids; do
-  p="$root/$id/patch.diff"; [ -f "$p" ] || continue
-  if ! git -C $wt apply "$p" 2>/dev/null; then echo "$id: STALE (patch does not apply to HEAD)"; continue; fi
-  rules=$(/var/tmp/mvcheck.matrix -property all -no-evidence -repo $wt -verif /verif 2>&1 | grep '^FAIL' | awk '{print $3}' | cut -d'|' -f1 | sort -u | tr '\n' ' ')
+cp bin/mvcheck $bin; fi
+jobs=${JOBS:-4}
+one() {
+  id="$1"; slot="$2"
+  p="$root/$id/patch.diff"; [ -f "$p" ] || return
+  wt=/var/tmp/mvmatrix_wt_$$_$slot
+  if [ ! -d $wt ]; then git -C /repo worktree add -q --detach $wt HEAD || return; fi
+  if ! git -C $wt apply "$p" 2>/dev/null; then echo "$id: STALE (patch does not apply to HEAD)"; return; fi
+  rules=$($bin -property all -no-evidence -repo $wt -verif /verif 2>&1 | grep '^FAIL' | awk '{print $3}' | cut -d'|' -f1 | sort -u | tr '\n' ' ')
   echo "$id: ${rules:-MISSED}"
   git -C $wt checkout -q -- . ; git -C $wt clean -fdq
+}
+export -f one; export root bin
+# distribute ids over the slots round-robin; each slot processes its ids sequentially
+i=0
+for id in $ids; do slot=$((i % jobs)); echo "$id" >> /var/tmp/mvmatrix_ids_$$_$slot; i=$((i+1)); done
+for slot in $(seq 0 $((jobs-1))); do
+  [ -f /var/tmp/mvmatrix_ids_$$_$slot ] || continue
+  ( while read id; do one "$id" "$slot"; done < /var/tmp/mvmatrix_ids_$$_$slot ) &
 done
-git -C /repo worktree remove --force $wt
-rm -f /var/tmp/mvcheck.matrix
+wait
+for slot in $(seq 0 $((jobs-1))); do
+  git -C /repo worktree remove --force /var/tmp/mvmatrix_wt_$$_$slot 2>/dev/null
+  rm -f /var/tmp/mvmatrix_ids_$$_$slot
+done
+rm -f $bin
